@@ -69,6 +69,7 @@ pub fn c01_float_inc_flush_read() {
     vcover!(g1 == 0.0 && g2 == a + b && a + b != 0.0, "c01.float: both increments between the two reads");
     std::mem::forget(l);
     std::mem::forget(c);
+    vcover!(true, "end of harness reached");
 }
 
 /// Integer counter: same scenario on `IntCounter` (fetch_add).
@@ -121,6 +122,7 @@ pub fn c01_int_inc_flush_read() {
     vcover!(g1 == b && b > 1, "c01.int: reader saw only the flush");
     std::mem::forget(l);
     std::mem::forget(c);
+    vcover!(true, "end of harness reached");
 }
 
 /// Two concurrent `inc_by` on the float counter (the compare-exchange retry loop must not lose
@@ -144,6 +146,7 @@ pub fn c01_float_two_writers() {
     assert!(c.get() == a + b, "C01 final value equals the sum of all increments");
     vcover!(fails > 0, "c01.writers: a compare-exchange failed and was retried");
     std::mem::forget(c);
+    vcover!(true, "end of harness reached");
 }
 
 /// Reset variant: T1 inc_by(a); T2 get, reset, get. The read after reset may be smaller.
@@ -172,6 +175,7 @@ pub fn c01_int_reset() {
     vcover!(g1 == a && g2 == 0 && a != 0, "c01.reset: reset discarded the increment");
     vcover!(g1 == 0 && g2 == a && a != 0, "c01.reset: increment after reset");
     std::mem::forget(c);
+    vcover!(true, "end of harness reached");
 }
 
 pub fn dispatch(name: &str) -> Option<fn()> {
